@@ -140,28 +140,35 @@ def handleDuplicate (s : State) (obj : Nat) (fn : Path) : Except Err State :=
 
 def isModuleCls (c : Cls) : Bool := c == .module || c == .package
 
-/-- object construction followed by `System.addObject(obj)`; the new object's id is returned -/
-def addObject (s : State) (c : Cls) (name : Name) (parent : Option Nat) : Except Err State :=
+/-- object construction: the new object (id = creation index) is linked into its parent's
+`contents` or, for a parentless module, into `rootobjects` -/
+def place (s : State) (c : Cls) (name : Name) (parent : Option Nat) : Except Err State :=
   let id := s.objs.length
   let s0 : State := { s with objs := s.objs ++ [⟨name, parent, c, [], []⟩] }
-  let placed : Except Err State :=
-    match parent with
-    | some p =>
-      if p < s.objs.length then
-        .ok (modifyObj s0 p (fun po => { po with contents := dset po.contents name id }))
-      else .error .assertionError   -- a parent that does not exist cannot be passed in Python
-    | none =>
-      if isModuleCls c then .ok { s0 with roots := s0.roots ++ [id] }
-      else .error .valueError
-  match placed with
+  match parent with
+  | some p =>
+    if p < s.objs.length then
+      .ok (modifyObj s0 p (fun po => { po with contents := dset po.contents name id }))
+    else .error .assertionError   -- a parent that does not exist cannot be passed in Python
+  | none =>
+    if isModuleCls c then .ok { s0 with roots := s0.roots ++ [id] }
+    else .error .valueError
+
+/-- the registration half of `System.addObject(obj)`:
+`allobjects.setdefault(fullName, obj)`, then `handleDuplicate` if somebody else was there -/
+def register (s1 : State) (id : Nat) : Except Err State :=
+  match path s1 id with
+  | none => .error .recursionError
+  | some fn =>
+    match dget s1.all fn with
+    | none => .ok { s1 with all := s1.all ++ [(fn, id)] }   -- setdefault inserted obj
+    | some _ => handleDuplicate s1 id fn
+
+/-- object construction followed by `System.addObject(obj)`; the new object's id is returned -/
+def addObject (s : State) (c : Cls) (name : Name) (parent : Option Nat) : Except Err State :=
+  match place s c name parent with
   | .error e => .error e
-  | .ok s1 =>
-    match path s1 id with
-    | none => .error .recursionError
-    | some fn =>
-      match dget s1.all fn with
-      | none => .ok { s1 with all := s1.all ++ [(fn, id)] }   -- setdefault inserted obj
-      | some _ => handleDuplicate s1 id fn
+  | .ok s1 => register s1 s.objs.length
 
 def canContainImports (c : Cls) : Bool := c == .module || c == .package || c == .cls
 
